@@ -288,8 +288,11 @@ func (e *Exec) intrinsic(fn *ssa.Function, args []Value) (Value, bool) {
 		}
 		return BoolV{e.P.Bool(was)}, true
 	case "time.Sleep":
-		e.advance(args[0].(IntV).T)
+		e.sleep(args[0].(IntV).T)
 		return nil, true
+	case "time.Until":
+		n := e.now()
+		return IntV{T: e.timeSub(args[0].(TimeV).NS, n.NS), Signed: true}, true
 	case "time.Since":
 		n := e.now()
 		return IntV{T: e.timeSub(n.NS, args[0].(TimeV).NS), Signed: true}, true
@@ -492,7 +495,7 @@ func (e *Exec) zz(name string, args []Value) Value {
 		}
 		return args[1]
 	case "Advance":
-		e.advance(args[0].(IntV).T)
+		e.sleep(args[0].(IntV).T)
 		return nil
 	case "Quiesce":
 		e.quiesce()
